@@ -83,6 +83,16 @@ Fixpoint dict_paths_ok (f : path -> bool) (obj : value) (p : path) {struct obj} 
          end) kvs
   end.
 
+(* no bytes object among the searched values (keys are not searched as values) *)
+Definition atom_not_bytes (a : atom) : bool := match a with ABytes _ => false | _ => true end.
+Fixpoint bytes_free (obj : value) : bool :=
+  match obj with
+  | VAtom a => atom_not_bytes a
+  | VList xs | VTuple xs => forallb bytes_free xs
+  | VDict kvs => forallb (fun kv => bytes_free (snd kv)) kvs
+  | VSet xs | VFrozen xs => forallb atom_not_bytes xs
+  end.
+
 Section Spec.
   Variable brepr : pystr -> pystr.
   Variable re_search : pystr -> bool.
